@@ -4,7 +4,7 @@ import "strings"
 
 // Argument / result type codes of the typed enumerator:
 //
-//	N number   S text   B boolean   D date or datetime   T time of day
+//	N number   S text   B boolean   D date   M datetime   T time of day
 //	A number or text (operands of & and CONCATENATE)
 //	F text whose leaf is the delimited literal "x,y,z,w" (first argument of FIELD)
 //	y year literal only   l delimiter literal only (not nestable)
@@ -26,7 +26,11 @@ func buildConstructs() []construct {
 		construct{"neg", "-", "N", 'N'},
 		construct{"bin", "+", "DN", 'D'},
 		construct{"bin", "-", "DN", 'D'},
-		construct{"bin", "+", "DT", 'D'},
+		construct{"bin", "+", "DT", 'M'},
+		construct{"bin", "+", "MN", 'M'},
+		construct{"bin", "-", "MN", 'M'},
+		construct{"bin", "+", "MT", 'M'},
+		construct{"bin", "-", "MT", 'M'},
 		construct{"bin", "&", "AA", 'S'},
 		construct{"bin", "=", "NN", 'B'},
 		construct{"bin", "<>", "NN", 'B'},
@@ -86,7 +90,13 @@ func buildConstructs() []construct {
 	fn("DATE", "yNN", 'D')
 	fn("TIME", "NNN", 'T')
 	fn("TODAY", "", 'D')
-	fn("NOW", "", 'D')
+	fn("NOW", "", 'M')
+	fn("EDATE", "MN", 'M')
+	fn("YEAR", "M", 'N')
+	fn("WEEKDAY", "M", 'N')
+	fn("HOUR", "M", 'N')
+	fn("MINUTE", "M", 'N')
+	fn("SECOND", "M", 'N')
 	fn("EDATE", "DN", 'D')
 	fn("DAYS", "DD", 'N')
 	fn("YEAR", "D", 'N')
@@ -183,7 +193,7 @@ func (s *shaper) shapes(want byte, depth int) []*E {
 	return out
 }
 
-var resultTypes = []byte{'N', 'S', 'B', 'D', 'T'}
+var resultTypes = []byte{'N', 'S', 'B', 'D', 'M', 'T'}
 
 // Leaf alphabets. Rotation r gives the i-th leaf of an expression the ((i + r) mod n)-th value of
 // the alphabet of its type, so neighbouring operands differ and every value reaches every position.
@@ -192,6 +202,7 @@ var leafAlphabet = map[byte][]*E{
 	'S': {str(`"ab c"`), str(`"q""q"`), str(`"w1 w2 w3 w4"`), ref("extra.s")},
 	'B': {boolean("TRUE"), boolean("FALSE"), boolean("true"), boolean("False")},
 	'D': {call("DATE", num("2020"), num("3"), num("10")), call("DATE", num("2019"), num("12"), num("2")), call("TODAY"), call("DATE", num("2021"), num("1"), num("28"))},
+	'M': {call("NOW"), call("NOW"), call("NOW"), call("NOW")},
 	'T': {call("TIME", num("2"), num("3"), num("10")), call("TIME", num("10"), num("2"), num("3")), call("TIME", num("3"), num("10"), num("2")), call("TIME", num("2"), num("10"), num("3"))},
 	'F': {str(`"x,y,z,w"`), str(`"x,y,z,w"`), str(`"a,b c,d"`), str(`"x,y,z,w"`)},
 	'y': {num("2020"), num("2021"), num("2019"), num("2020")},
